@@ -23,7 +23,7 @@ if sh("git -C /repo diff --quiet").returncode != 0:
     print("/repo has uncommitted changes; refusing"); sys.exit(2)
 out = {}
 for d in sys.argv[1:]:
-    for pf in sorted(glob.glob(os.path.join(d, "r*.diff"))):
+    for pf in sorted(glob.glob(os.path.join(os.path.abspath(d), "r*.diff"))):
         if os.path.getsize(pf) == 0:
             continue
         a = sh("git -C /repo apply %s" % pf)
